@@ -59,7 +59,8 @@ RULE = ("period cases: 1-2 limiters (period 1..60 s, quota 0..8, 25% Align()), 1
         "(quick: two with 200 ms client timeouts and one with the 3 s defaults = about 12 s for the request that runs into it, driven in a process of its own next to the others; thorough: four short and one default: the server accepts "
         "every command and never answers), with deadlines expiring while the EVAL is in flight on a healthy Redis (also 3% "
         "of the random requests) and with window-edge histories on servers one hour ahead of / behind the callers' wall "
-        "clock, with another handle to the same address piling up 400 WRONGTYPE errors (first cases of the run; also 10% of "
+        "clock, with pairs of distinct period keys longer than 128 bytes that share their first 128 / 200 bytes (three directed "
+        "cases; also in 30% of the random period cases), with another handle to the same address piling up 400 WRONGTYPE errors (first cases of the run; also 10% of "
         "the random cases), with Align() limiters that live through 1-11 s of real time between construction, takes and "
         "windows (server stepped to each window's aligned end +-1 ms), with the forced recovery race (late failure queued on "
         "rescueLock ahead of the monitor's deferred reset; alive-or-monitored asserted at every quiescent point), "
@@ -83,6 +84,9 @@ ASSUMPTIONS = ["one clock: the caller's now equals the server clock and never go
                "2*burst >= rate, rate >= 1, burst >= 1, n >= 0, period >= 1 (other configurations: model agreement only)",
                "per case at most 4 failing Redis calls so that the store's circuit breaker (lib/breaker, 5 protected "
                "requests) never rejects a healthy call",
+               "distinct key strings are distinct Redis keys (the model's keys are abstract identifiers; c08_period_keys_independent "
+               "is about identifiers): checked on the wire for keys of any length, including pairs longer than 128 bytes "
+               "that differ only after a 128 / 200 byte shared prefix",
                "a replaced server has lost the counters / the bucket of the old one: the window automaton and the bucket "
                "restart empty there (spec_ok additionally requires that a decision by Redis leaves level and second in the "
                "two bucket keys of the server that is listening)",
@@ -108,6 +112,11 @@ def _period_case(rng, tier):
     if nl == 2 and rng.random() < 0.3:
         lims[1] = dict(lims[0])          # a second limiter instance on the same keys
     nkeys = rng.randint(1, 3)
+    # key alphabet: short keys 0..nkeys-1; in 30% of the cases also a pair of LONG keys (> 128 bytes) that share
+    # their first 128 (100/101, 104/105) or 200 (102/103) bytes
+    alphabet = list(range(nkeys))
+    if rng.random() < 0.3:
+        alphabet += list(rng.choice([(100, 101), (102, 103), (104, 105)])) * 2
     ops = []
     downs = 0
     replaces = 0
@@ -120,7 +129,7 @@ def _period_case(rng, tier):
         if r < 0.68:
             down = rng.random() < 0.04 and downs < 3
             downs += down
-            op = {"op": "take", "lim": lim, "key": rng.randrange(nkeys), "down": bool(down)}
+            op = {"op": "take", "lim": lim, "key": rng.choice(alphabet), "down": bool(down)}
             if not down and rng.random() < 0.04:
                 op["cut"] = True       # the caller's context is cancelled when the take reaches the server
             ops.append(op)
@@ -132,7 +141,7 @@ def _period_case(rng, tier):
             replaces += 1
             ops.append({"op": "replace"})
         else:
-            ops.append({"op": "conc", "lim": lim, "key": rng.randrange(nkeys), "g": rng.randint(2, 8)})
+            ops.append({"op": "conc", "lim": lim, "key": rng.choice(alphabet), "g": rng.randint(2, 8)})
     if rng.random() < 0.1 and not any(op.get("down") for op in ops):
         ops.insert(rng.randrange(len(ops) + 1), {"op": "noise", "n": 400})
     case = {"kind": "period", "lims": lims, "t0": T0_BASE + rng.randrange(10 ** 9), "ops": ops}
@@ -429,6 +438,19 @@ def _race_case(rng):
     return {"kind": "token", "rate": rate, "burst": burst, "insts": insts, "t0": T0_BASE + rng.randrange(10 ** 9), "ops": ops}
 
 
+def _longkey_case(rng, pair):
+    """directed: two distinct keys longer than 128 bytes with a long common prefix (url + session token) are
+    limited independently: exhausting A leaves B fresh, and the other way round in the next window"""
+    a, b = pair
+    period, quota = rng.choice([(2, 2), (3, 3), (5, 2)])
+    tk = lambda k: {"op": "take", "lim": 0, "key": k, "down": False}
+    ops = [tk(a) for _ in range(quota + 1)] + [tk(b) for _ in range(quota + 1)] + [tk(a), tk(0)]
+    ops += [{"op": "tick", "ms": period * 1000}] + [tk(b) for _ in range(quota + 1)] + [tk(a) for _ in range(quota + 1)]
+    ops += [{"op": "conc", "lim": 0, "key": b, "g": 4}, tk(a)]
+    return {"kind": "period", "lims": [{"period": period, "quota": quota, "align": False, "pfx": 0}],
+            "t0": T0_BASE + rng.randrange(10 ** 9), "ops": ops}
+
+
 def _fixed_cases(rng, tier):
     """cases every run starts with (real-time outages are too expensive to leave to chance)"""
     if tier == "thorough":
@@ -446,6 +468,7 @@ def _fixed_cases(rng, tier):
         cases += [_inflight_case(rng), _skew_case(rng, 3600), _skew_case(rng, -3600)]
         cases += [_slow_conc_case(rng, g) for g in (8, 16, 32)]
         cases += [_cut_case(rng), _cut_case(rng), _stair_case(rng), _stair_case(rng)]
+    cases += [_longkey_case(rng, pair) for pair in ((100, 101), (102, 103), (104, 105))]
     cases += [_race_case(rng) for _ in range(2 if tier != "thorough" else 10)]
     cases += [_aligned_live_case(rng, 5, 1200), _aligned_live_case(rng, 60, 1700)]
     if tier == "thorough":
@@ -669,6 +692,8 @@ def bucket(case, obs):
         out.append("period:server-clock=%s" % ("2020" if case.get("clk") != "real" else "caller%+ds" % case.get("skew", 0)))
         if len(case["lims"]) == 2 and case["lims"][0].get("pfx") == case["lims"][1].get("pfx"):
             out.append("period:two-instances-one-key")
+        if any(op.get("key", 0) >= 100 for op in case["ops"]):
+            out.append("period:long-keys-with-shared-prefix")
         for op, o in zip(case["ops"], obs["ops"]):
             out.append("pop:" + op["op"])
             if op["op"] == "take":
